@@ -4,6 +4,7 @@ import (
 	"encoding/gob"
 	"go/ast"
 	"go/token"
+	"sort"
 	"sync"
 )
 
@@ -81,9 +82,11 @@ func prepareFile(file *ast.File) *ast.File {
 	copy := *file
 	file = &copy
 
-	// Clear fields that can be easily reconstructed.
+	// Clear fields that can be easily reconstructed. Comments attached to
+	// nodes are found again by unpackFile; free-floating ones can't be, and
+	// they may carry directives such as //go:linkname, so those are kept.
 	file.Imports = nil
-	file.Comments = nil
+	file.Comments = freeComments(file)
 
 	// Clear fields that are deprecated.
 	file.Scope = nil
@@ -100,11 +103,32 @@ func prepareFile(file *ast.File) *ast.File {
 	return file
 }
 
+// freeComments returns the comment groups of the file that are not attached
+// to any node (as a doc or line comment) and therefore can't be reconstructed
+// by walking the AST.
+func freeComments(file *ast.File) []*ast.CommentGroup {
+	attached := map[*ast.CommentGroup]bool{}
+	ast.Inspect(file, func(n ast.Node) bool {
+		if cg, ok := n.(*ast.CommentGroup); ok {
+			attached[cg] = true
+		}
+		return true
+	})
+	var free []*ast.CommentGroup
+	for _, cg := range file.Comments {
+		if !attached[cg] {
+			free = append(free, cg)
+		}
+	}
+	return free
+}
+
 // unpackFile is run when deserializing a source to reconstruct the
 // Imports and Comments fields that were cleared when serializing the file.
 func unpackFile(file *ast.File) {
 	var imports []*ast.ImportSpec
-	var comments []*ast.CommentGroup
+	// Start with the free-floating comments that were serialized.
+	comments := file.Comments
 	ast.Inspect(file, func(n ast.Node) bool {
 		if im, ok := n.(*ast.ImportSpec); ok {
 			imports = append(imports, im)
@@ -113,6 +137,9 @@ func unpackFile(file *ast.File) {
 			comments = append(comments, cg)
 		}
 		return true
+	})
+	sort.SliceStable(comments, func(i, j int) bool {
+		return comments[i].Pos() < comments[j].Pos()
 	})
 	file.Imports = imports
 	file.Comments = comments
